@@ -106,6 +106,7 @@ def mixed_part(ctx, stats):
     n = 220 if ctx.quick() else 2400
     nexec = 110 if ctx.quick() else 1200
     items = [specgen_mixed.gen_mixed_cascade(rng) for _ in range(n)]
+    items += [specgen_mixed.gen_iterative_cascade(rng) for _ in range(n // 6)]
     jobs, index = [], []
     for it in items:
         index.append(len(jobs))
@@ -144,6 +145,9 @@ def mixed_part(ctx, stats):
             if any(len(names & (set(q["ranks"]) | set(q.get("acc", {})))) >= 2 for q in it["per"][i0 + 1:]):
                 ms["index_math_then_reuse_of_its_ranks"] += 1
         text = full[1]
+        if it.get("iterative"):
+            ms["iterative_text_only"] = ms.get("iterative_text_only", 0) + 1
+            continue
         fl = {}
         for p in it["per"]:
             for a, b in flags_of(text, it["mapping"], p["out"]).items():
